@@ -1,2 +1,59 @@
-(* Props/C08.v — C08: RESP encode/decode round trip, independent of chunking. *)
-From BC Require Import Resp.Frame Resp.Conn.
+(* Props/C08.v — C08: RESP encoding and decoding round-trip, independent of stream chunking.
+   Model: Resp/Frame.v ([enc] = Connection::write_frame, [parse]/[check] = Frame::parse/check),
+   Resp/Conn.v ([read_all] = repeated Connection::read_frame over scripted socket reads). *)
+From BC Require Import Resp.Frame Resp.Conn Resp.IntProofs Resp.FrameProofs Resp.RoundTrip.
+Open Scope Z_scope.
+
+(* 1. Any frame the connection can write ([writable]: simple strings / errors that are UTF-8 without
+      CR or LF, every i64, bulk strings of arbitrary bytes, null, arrays of those) is decoded back
+      to the same frame by both walkers, whatever bytes follow it in the buffer, which are left
+      untouched.  Debug and release alike. *)
+Theorem C08_roundtrip : forall b f bs rest, writable f = true -> enc f = Ok bs ->
+  parse (fixed b) (bs ++ rest) = Ok (f, rest) /\ check (fixed b) (bs ++ rest) = Ok (tt, rest).
+Proof. exact roundtrip. Qed.
+Print Assumptions C08_roundtrip.
+
+(* 2. Consequently Connection::parse_frame on a buffer that starts with an encoded frame yields that
+      frame and leaves exactly the remaining bytes buffered. *)
+Theorem C08_parse_frame_roundtrip : forall b f bs rest, writable f = true -> enc f = Ok bs ->
+  parse_frame (fixed b) (bs ++ rest) = Ok (Some (f, rest)).
+Proof.
+  intros b f bs rest Hw He. unfold parse_frame.
+  destruct (roundtrip b f bs rest Hw He) as [Hp Hc]. rewrite Hc, Hp. reflexivity.
+Qed.
+Print Assumptions C08_parse_frame_roundtrip.
+
+(* 3. The writer never panics on a writable frame, and every writable frame has an encoding;
+      (nested arrays hit `unimplemented!()` in write_single_value: the model says [Panic] there and
+      the property's quantifier excludes them). *)
+Theorem C08_writable_encodes : forall f, writable f = true -> exists bs, enc f = Ok bs.
+Proof.
+  intros f Hw.
+  assert (Hs : forall g, writable_single g = true -> exists bs, enc_single g = Ok bs).
+  { intros g Hg. destruct g; cbn [enc_single]; eauto. discriminate. }
+  destruct f as [s|s|z|bb|items|]; try (apply Hs; exact Hw).
+  cbn [writable] in Hw. apply andb_true_iff in Hw as [Hw _]. cbn [enc].
+  assert (Hi : exists bi, enc_items items = Ok bi).
+  { induction items as [|g items IH]; [cbn; eauto|].
+    cbn [forallb] in Hw. apply andb_true_iff in Hw as [Hg Hw].
+    destruct (Hs g Hg) as (bg & Eg). destruct (IH Hw) as (bi & Ei). cbn [enc_items]. rewrite Eg, Ei. eauto. }
+  destruct Hi as (bi & ->). eauto.
+Qed.
+Print Assumptions C08_writable_encodes.
+
+Example C08_nested_array_not_writable : enc (Array [Array [Null]]) = Panic.
+Proof. reflexivity. Qed.
+
+(* Non-vacuity. *)
+Example C08_roundtrip_example :
+  let f := Array [Bulk [83; 69; 84]%N; Bulk [13; 10; 0; 255]%N; Integer (- 9223372036854775808); Null; Simple [79; 75]%N] in
+  writable f = true /\ exists bs, enc f = Ok bs /\ parse (fixed Debug) (bs ++ [42]%N) = Ok (f, [42]%N).
+Proof. cbv zeta. split; [reflexivity|]. eexists. split; [reflexivity|]. vm_compute. reflexivity. Qed.
+
+(* Still to be proved in Coq (stated here, decided for now by the deterministic differential runs of
+   `bin/check C08`, which deliver every generated stream whole, bytewise, at random cuts and inside
+   each CRLF, and also cut short inside its last frame):
+     C08_prefix_incomplete : writable f -> enc f = Ok bs -> strict_prefix p bs -> check (fixed b) p = Err Incomplete
+     C08_stream            : Forall writable fs -> concat segs = concat (map enc fs) ->
+                             read_all (fixed b) segs [] = map RFrame fs ++ [RClean]
+     C08_truncated_is_error: ... stream ends inside a frame -> last result = RReset *)
